@@ -310,12 +310,16 @@ def check_C17(rep, tier):
 def check_C10(rep, tier):
     ctx = run_a.context(tier)
     sh = engine_s.s_shape(rep, "C10", ctx["api"])
-    e = run_e.run(rep, tier, ["codec"], "C10-codec", select=lambda p: p.family == "E-codec")
+    e = run_e.run(rep, tier, ["codec", "serde"], "C10-codec", select=lambda p: p.family == "E-codec")
     cov = _explain(
         "Engine E: encode_to / size_hint / decode / max_encoded_len of every fixed type are those of the inner integer "
         "(decode = the integer's decode mapped through from_bits, so fewer bytes fail exactly as for the integer; "
         "max_encoded_len folds to width/8), the byte conversions are the primitive's, from_bits/to_bits are the "
-        "identity, and the encoding is identical across fractional-bit counts of one family. S-shape: each struct is "
+        "identity, and the encoding is identical across fractional-bit counts of one family. With the crate's `serde` "
+        "feature on (a second harness build): serialising a fixed value or a Wrapping of it through a recording "
+        "Serializer is serialize_struct(<name>, 1) + serialize_field(\"bits\", &<the underlying integer>) + end, and "
+        "deserialising the positional form reads exactly that integer type (8..64-bit families; the 128-bit bodies do "
+        "not normalise). S-shape: each struct is "
         "#[repr(transparent)] over [integer, PhantomData] with derived codec impls and no helper attributes.", [e, sh])
     cov["checker_cmd"] = "python3 check.py C10 (tools/vf/engine_e.py on post-LTO IR + tools/vf/engine_s.py on rustdoc-JSON)"
     cov["trusted_base"] = TRUST_E + ["little-endian target: to_le_bytes and to_ne_bytes coincide, an le/ne mix-up is invisible (and behaviourally absent)"]
